@@ -23,7 +23,7 @@ EXPLANATION = ("Theorems about Story.deliver and its lifting to continue_interna
                "messages newly readable in the run without handler, each once.")
 
 
-def run_story(story, choices_seed, handler, scratch):
+def run_story(story, choices_seed, handler, scratch, sliced=False):
     """Play with fixed random choices; returns (ops, results, per-continue message lists)."""
     sess = play.RtSession()
     rng = random.Random(choices_seed)
@@ -40,7 +40,21 @@ def run_story(story, choices_seed, handler, scratch):
         guard = 0
         while sess.send(["can"]).get("v") and guard < 300:
             guard += 1
-            r = sess.send(["cont"])
+            if sliced:
+                # the same line delivered in time slices (virtual step clock): one outermost continue all the same
+                srng = random.Random(choices_seed * 31 + len(per_cont))
+                evs = []
+                for _ in range(400):
+                    r = sess.send(["contasync", srng.choice([1, 2, 3, 5])])
+                    evs += r.get("ev") or []
+                    if r.get("r") != "ok" or r.get("v") is True:
+                        break
+                else:
+                    r = sess.send(["cont"])
+                    evs += r.get("ev") or []
+                r = dict(r, ev=evs)
+            else:
+                r = sess.send(["cont"])
             if play.is_fuel(r):
                 sess.close()
                 return sess, per_cont, "fuel"
@@ -106,6 +120,26 @@ def one_case(job):
             res["violations"].append(({"story": desc, "choices_seed": cseed, "continue_no": i,
                                        "why": "an error did not make the continue fail"}, {"kind": "error-ignored"}))
             break
+    # the same with every line delivered in time slices: same deliveries, line by line, and the story stops
+    # where it stops when it is played without slices
+    c = run_story(story, cseed, True, scratch, sliced=True)
+    if c[2] != "fuel":
+        sc, pc, endc, tailc = c
+        res["ops"] += len(sc.ops)
+        ma = [sorted(map(tuple, x["msgs"])) for x in pa]
+        mc = [sorted(map(tuple, x["msgs"])) for x in pc]
+        if ma != mc or enda != endc or any(t for t in tailc):
+            res["violations"].append(({"story": desc, "choices_seed": cseed, "blocking": [x["msgs"] for x in pa],
+                                       "sliced": [x["msgs"] for x in pc][:len(pa) + 4], "end_blocking": enda, "end_sliced": endc,
+                                       "ops": sc.ops[:400],
+                                       "why": "with time-sliced continues the deliveries differ from blocking play "
+                                              "(lost, repeated, or the story went on after an error)"},
+                                      {"kind": "sliced-delivery"}))
+        rm = play.run_model(sc.ops, scratch, tag=f"c13s-{cseed}")
+        d = play.first_diff(sc.ops, sc.results, rm)
+        if d and not res["corr"]:
+            i, ca, cb = d
+            res["corr"] = {"story": desc, "ops": sc.ops[: i + 1], "op": sc.ops[i], "code": ca, "model": cb}
     if any(t for t in taila):
         res["violations"].append(({"story": desc, "choices_seed": cseed, "later_deliveries": taila,
                                    "why": "a later continue delivered an earlier message again"}, {"kind": "redelivery"}))
